@@ -1,12 +1,12 @@
 package props
 
 import (
-	"os"
 	"fmt"
 	"go/ast"
 	"go/constant"
 	"go/token"
 	"go/types"
+	"os"
 	"sort"
 	"strings"
 
@@ -471,6 +471,9 @@ func c08(c *core.Check) {
 	triviaRule(c, r9)
 
 	c08FlexZero(c)
+	c08CascadeEntries(c)
+	r12 := c.Rule("R12", "a malformed declaration followed by a nested rule: the tokens of the failed declaration, the ';' that ended it and the rest of the block are all handed back before the block is re-read as rules (shared with C06.R6)", 3)
+	c06RewindRule(c, r12)
 
 	// ---- R5 var() cycles
 	r5 := c.Rule("R5", "tree.resolveVar follows custom properties under a visited set: a membership test on the variable name excludes the lookup of its value, and the name is inserted before the looked-up tokens are resolved recursively and removed again when that resolution returns (the set holds the resolutions in progress, not every name seen)", 3)
@@ -690,5 +693,64 @@ func c08FlexZero(c *core.Check) {
 		forced := isNum && isZero && !(grow && shrink)
 		want := !basis && !forced
 		r.Cond(got == want, key, p.Pos(fn.Pos()), fmt.Sprintf("tried as basis: %v", want), fmt.Sprintf("tried as flex-basis: %v, CSS Flexbox gives %v", got, want))
+	}
+}
+
+// c08CascadeEntries: every entry written into a cascaded style keeps the shorthand it came from.
+func c08CascadeEntries(c *core.Check) {
+	p := c.Prog
+	r := c.Rule("R11", "a declaration keeps the shorthand it was written with until var() is substituted: every weigthedValue stored into a cascaded style (style sheets, style attributes, presentational hints) carries the declaration's `shortand` field next to its value — a pending `margin: var(--m)` written from a style attribute is otherwise validated as a longhand", 3)
+	pk := p.ByPath["html/tree"]
+	if pk == nil {
+		r.Anchor("html/tree")
+		return
+	}
+	n := 0
+	for _, f := range pk.Syntax {
+		if strings.HasSuffix(p.Fset.Position(f.Pos()).Filename, "_test.go") {
+			continue
+		}
+		for _, d := range f.Decls {
+			fd, ok := d.(*ast.FuncDecl)
+			if !ok || fd.Body == nil {
+				continue
+			}
+			ast.Inspect(fd.Body, func(x ast.Node) bool {
+				cl, ok := x.(*ast.CompositeLit)
+				if !ok {
+					return true
+				}
+				tv, ok := pk.TypesInfo.Types[cl]
+				if !ok {
+					return true
+				}
+				named, ok := tv.Type.(*types.Named)
+				if !ok || named.Obj().Name() != "weigthedValue" {
+					return true
+				}
+				fields := map[string]string{}
+				for _, e := range cl.Elts {
+					if kv, ok := e.(*ast.KeyValueExpr); ok {
+						if id, ok := kv.Key.(*ast.Ident); ok {
+							fields[id.Name] = p.NodeText(kv.Value)
+						}
+					}
+				}
+				if _, hasValue := fields["value"]; !hasValue {
+					return true // the zero entry
+				}
+				n++
+				key := fmt.Sprintf("html/tree.%s | weigthedValue{%s}", fd.Name.Name, p.NodeText(cl))
+				if len(key) > 150 {
+					key = key[:150] + "…"
+				}
+				_, hasSh := fields["shortand"]
+				r.Cond(hasSh, key+fmt.Sprintf(" #%d", n), p.Pos(cl.Pos()), "carries shortand: "+fields["shortand"], "the entry is written without its `shortand` field: a shorthand whose value still holds var() is later expanded as if it were a longhand")
+				return true
+			})
+		}
+	}
+	if n == 0 {
+		r.Anchor("html/tree: weigthedValue literals")
 	}
 }
